@@ -432,8 +432,8 @@ impl Property for C03 {
     }
     fn families(&self, tier: Tier) -> Vec<Family<Case>> {
         vec![
-            Family::random("document", tier.n(12_000, 250_000), fam_document),
-            Family::random("embedded", tier.n(4000, 80_000), fam_embedded),
+            Family::random("document", tier.n(48_000, 250_000), fam_document),
+            Family::random("embedded", tier.n(16_000, 80_000), fam_embedded),
             Family::fixed("corpus", corpus_cases()),
         ]
     }
